@@ -20,34 +20,39 @@ Shape == [m \in MCMans |->
 
 FirstMans(n) == {MCMSeq[i] : i \in 1..n}
 SubjChoices(M) == {None, Unknown, "b1"} \cup M
-ManMaps(M) == {[m \in M |-> [config |-> Shape[m].config, layers |-> Shape[m].layers, subject |-> f[m]]] : f \in [M -> SubjChoices(M)]}
-TagMaps(M, TU) == UNION {[T -> M \cup {Unknown}] : T \in SUBSET TU}
-Space(ns, blobsets, TU) ==
-  UNION {{[blobs |-> b, mans |-> mm, tags |-> tg] : b \in blobsets, mm \in ManMaps(FirstMans(n)), tg \in TagMaps(FirstMans(n), TU)} : n \in ns}
-\* a fixed pair of tags (one good, one naming nothing) instead of all bindings
+ManMap(M, f) == [m \in M |-> [config |-> Shape[m].config, layers |-> Shape[m].layers, subject |-> f[m]]]
+AllTags(M) == UNION {[T -> M \cup {Unknown}] : T \in SUBSET {"t1", "t2"}}
+\* a fixed choice of tags (none; one good and one naming nothing; two good) instead of all bindings
 FewTags(M) == {<<>>} \cup (IF M = {} THEN {} ELSE {[t \in {"t1", "t2"} |-> IF t = "t1" THEN CHOOSE m \in M : TRUE ELSE Unknown],
                                                    [t \in {"t1", "t2"} |-> CHOOSE m \in M : TRUE]})
-SpaceFewTags(ns, blobsets) ==
-  UNION {{[blobs |-> b, mans |-> mm, tags |-> tg] : b \in blobsets, mm \in ManMaps(FirstMans(n)), tg \in FewTags(FirstMans(n))} : n \in ns}
+OneTag(M) == UNION {[T -> M \cup {Unknown}] : T \in SUBSET {"t1"}}
 
-\* The spaces (TLC evaluates every zero-arity definition when it starts: the configuration selects one).
+\* The space explored (the configuration selects one): numbers of manifests, sets of blobs, tag bindings.
 CONSTANT SpaceSel
-MCContents0 ==
-  CASE SpaceSel = "tiny" ->      \* every subject relation on up to 2 manifests, every set of blobs, every binding of two tags
-         Space(0..2, SUBSET MCBlobs, {"t1", "t2"})
-    [] SpaceSel = "live" ->      \* small enough for TLC's liveness checker (one initial state per content)
-         Space(0..2, {MCBlobs, {"b1"}}, {"t1"})
-    [] SpaceSel = "all3" ->      \* every subject relation on up to 3 manifests, every set of blobs, every binding of two tags
-         Space(0..3, SUBSET MCBlobs, {"t1", "t2"})
-    [] SpaceSel = "subj3" ->     \* every subject relation on 3 manifests, all blobs present or one missing, few tags
-         SpaceFewTags({3}, {MCBlobs, {"b1", "b2"}})
-    [] SpaceSel = "subj4" ->     \* every subject relation on 4 manifests (7^4 = 2401), all blobs present or one missing, few tags
-         SpaceFewTags({4}, {MCBlobs, {"b1", "b2"}})
-    [] SpaceSel = "gen" ->       \* what is exported to the harness
-         Space(0..3, {MCBlobs, {"b1", "b3"}}, {"t1", "t2"})
-    [] SpaceSel = "genquick" ->
-         Space(0..2, {MCBlobs, {"b1", "b3"}}, {"t1", "t2"}) \cup SpaceFewTags({3}, {MCBlobs})
-MCContents == MCContents0
+Sp == CASE SpaceSel = "tiny" ->   \* up to 2 manifests, every set of blobs, every binding of two tags
+             [ns |-> 0..2, bs |-> SUBSET MCBlobs, tg |-> "all"]
+        [] SpaceSel = "live" ->   \* small, for TLC's liveness checker
+             [ns |-> 0..2, bs |-> {MCBlobs, {"b1"}}, tg |-> "one"]
+        [] SpaceSel = "all3" ->   \* up to 3 manifests, every set of blobs, every binding of two tags
+             [ns |-> 0..3, bs |-> SUBSET MCBlobs, tg |-> "all"]
+        [] SpaceSel = "subj3" ->  \* 3 manifests, all blobs or one missing, few tags
+             [ns |-> {3}, bs |-> {MCBlobs, {"b1", "b2"}}, tg |-> "few"]
+        [] SpaceSel = "subj4" ->  \* 4 manifests: 7^4 = 2401 subject relations; all blobs or one missing, few tags
+             [ns |-> {4}, bs |-> {MCBlobs, {"b1", "b2"}}, tg |-> "few"]
+        [] SpaceSel = "gen" ->    \* exported to the harness
+             [ns |-> 0..3, bs |-> {MCBlobs, {"b1", "b3"}}, tg |-> "all"]
+        [] SpaceSel = "genquick" ->
+             [ns |-> 0..3, bs |-> {MCBlobs}, tg |-> "few"]
+TagChoices(M) == CASE Sp.tg = "all" -> AllTags(M) [] Sp.tg = "one" -> OneTag(M) [] OTHER -> FewTags(M)
+\* picked component by component (TLC sorts a set it enumerates, quadratically for sets of records)
+MCChoose ==
+  \E n \in Sp.ns : \E b \in Sp.bs :
+    LET M == FirstMans(n) IN
+    \E f \in [M -> SubjChoices(M)] : \E tg \in TagChoices(M) :
+      Start([blobs |-> b, mans |-> ManMap(M, f), tags |-> tg])
+MCNext == MCChoose \/ PNext \/ Stutter
+MCSpec == PInit /\ [][MCNext]_allvars /\ WF_allvars(MCChoose \/ PNext)
+MCSafeSpec == PInit /\ [][MCNext]_allvars
 
 \* ---- the catalogue: blobs, and one manifest content per subject chain without repetition
 RECURSIVE ChainsOver(_)
@@ -78,5 +83,5 @@ MCPos == MCPos0
 IsInitial == pc = "complete" /\ passes = 1 /\ todo = MansOf(content)
 Emit == IsInitial => PrintT(<<"MBT", ToJson([blobs |-> content.blobs, mans |-> content.mans, tags |-> content.tags,
                                               outcome |-> Outcome(content)])>>)
-GenSpec == PInit /\ [][Choose]_allvars
+GenSpec == PInit /\ [][MCChoose]_allvars
 =============================================================================
